@@ -262,6 +262,7 @@ func IsLiteralCancelled(err error) bool {
 //@   ensures __called("ContinuationRequest.Wait") && __failed("ContinuationRequest.Wait") ==> isErrorWriter(result)
 //@   ensures sync != nil && !isErrorWriter(result) ==> __called("ContinuationRequest.Wait") && !__failed("ContinuationRequest.Wait")
 //@   ensures !isErrorWriter(result) ==> enc.literal
+//@   ensures !isErrorWriter(result) ==> enc.err == nil
 //@   props C12:post
 //@   ensures[C12] __called("ContinuationRequest.Wait") && __failed("ContinuationRequest.Wait") && old(enc.err) == nil ==> IsLiteralCancelled(enc.err)
 
@@ -329,12 +330,13 @@ func FlagGrammar(s string) bool {
 
 // Quoted: the value is made of exactly the bytes read between the quotes
 // (after dropping the escape character): nothing but the byte just read is
-// ever appended to it.
+// ever appended to it, and never a CR or LF - a quoted string does not span
+// lines, so an unterminated one cannot swallow the commands that follow.
 //
 //@ func (dec *Decoder) Quoted(ptr *string) (result bool)
-//@   props C01:callsite C02:callsite
+//@   props C01:callsite C02:callsite C04:callsite
 //@   modifies ptr
-//@   callsite Builder.WriteByte(b *strings.Builder, ch byte) requires int(ch) == __result("Decoder.readByte")
+//@   callsite Builder.WriteByte(b *strings.Builder, ch byte) requires int(ch) == __result("Decoder.readByte") && ch != 13 && ch != 10
 //@   callsite Builder.WriteRune(b *strings.Builder, r rune) requires false
 //@   callsite Builder.WriteString(b *strings.Builder, str string) requires false
 //@   callsite Builder.Write(b *strings.Builder, p []byte) requires false
@@ -472,3 +474,15 @@ func utf7Name(name string) string {
 	s, _ := utf7.Encoding.NewEncoder().String(name)
 	return s
 }
+
+// DiscardLine returns only after the end of the line was consumed (or reading
+// failed): a bare CR is not a line end, what follows it up to the line feed
+// still belongs to the discarded line and is never left to be parsed as the
+// next command.
+//
+//@ func (dec *Decoder) CRLF() (result bool)
+//@   ensures result ==> dec.crlf
+
+//@ func (dec *Decoder) DiscardLine()
+//@   props C04:post
+//@   ensures[C04] dec.crlf || (__called("Reader.ReadByte") && __failed("Reader.ReadByte"))
